@@ -16,7 +16,13 @@ def main():
         dest = os.path.join(ROOT, "seeded", "%s-%s" % (meta["property"], meta["name"]))
         os.makedirs(dest, exist_ok=True)
         for f in os.listdir(os.path.join(src, "seed_out")):
-            shutil.copy(os.path.join(src, "seed_out", f), dest)
+            if f.startswith("confirm.log."):
+                continue
+            sp = os.path.join(src, "seed_out", f)
+            if os.path.isdir(sp):
+                shutil.copytree(sp, os.path.join(dest, f), dirs_exist_ok=True)
+            else:
+                shutil.copy(sp, dest)
         demo = os.path.join(src, "seed_demo")
         if os.path.isdir(demo):
             shutil.copytree(demo, os.path.join(dest, "demo"), dirs_exist_ok=True)
